@@ -45,7 +45,9 @@ theorem abortOne_keeps (K : Nat → Prop) (s : State) (i) (hK : ∀ k, K k → s
         rw [Map.has_iff, hK _ hk] at hadd
         exact hadd rfl
       · rw [if_neg hji]; exact hj
-    · rw [invalidate_oid]; exact hj
+    · split
+      · exact hj
+      · rw [invalidate_oid]; exact hj
 
 theorem uncreate_keeps {P} (K : Nat → Prop) {s : State} (h : Str P s) (k0) (hK : ¬ K k0) :
     Keeps K s (uncreate s k0) := by
@@ -162,7 +164,9 @@ def fixed (s : State) :=
   · rfl
   · split
     · rfl
-    · exact invalidate_fixed _ _
+    · split
+      · rfl
+      · exact invalidate_fixed _ _
 
 @[simp] theorem abortObjs_fixed (s : State) : fixed (abortObjs s) = fixed s :=
   foldl_frame fixed abortOne abortOne_fixed _ s
@@ -196,7 +200,8 @@ structure AbortEffect (t Y : State) : Prop where
   keeps : Keeps (fun k => t.added.get k = none ∧ t.creating.has k = false) t Y
   regs : ∀ i ∈ t.registered, ∀ k, (t.objs i).oid = some k →
     (t.added.get k = some i → (Y.objs i).oid = none) ∧
-    (t.added.get k = none → (Y.objs i).status = .ghost ∨ (Y.objs i).oid = none)
+    (t.added.get k = none → t.creating.has k = false →
+      (Y.objs i).status = .ghost ∨ (Y.objs i).oid = none)
 
 theorem connAbort_effect {t : State} (hS : Str [] t) (hsp : t.sp = none) :
     AbortEffect t (connAbort t) := by
@@ -254,8 +259,8 @@ theorem connAbort_effect {t : State} (hS : Str [] t) (hsp : t.sp = none) :
     · intro ha
       have := e1 ha
       rw [hsh.noneKept i this]; exact this
-    · intro ha
-      rcases e2 ha with h1 | h1
+    · intro ha hncr
+      rcases e2 ha hncr with h1 | h1
       · exact Or.inl (hsh.ghostKept i h1)
       · right; rw [hsh.noneKept i h1]; exact h1
 
@@ -272,7 +277,8 @@ structure TpcAbortEffect (u Z : State) : Prop where
     Z.log = u.log
   uncached : ∀ k, u.creating.has k = true → Z.cache.get k = none
   keeps : Keeps (fun k => u.added.get k = none ∧ u.creating.has k = false) u Z
-  modGhost : ∀ k ∈ u.modified, ∀ i, Z.cache.get k = some i → (Z.objs i).status = .ghost
+  modGhost : ∀ k ∈ u.modified, u.creating.has k = false →
+    ∀ i, Z.cache.get k = some i → (Z.objs i).status = .ghost
 
 theorem connTpcAbort_effect {u : State} (hS : Str [] u) (hsp : u.sp = none) (hb : u.begun = true) :
     TpcAbortEffect u (connTpcAbort u) := by
@@ -282,8 +288,8 @@ theorem connTpcAbort_effect {u : State} (hS : Str [] u) (hsp : u.sp = none) (hb 
   rw [hZ]
   -- the stages
   have c0 : Clean [] u (storageAbort u) := storageAbort_clean hS
-  have c1 := invalidateAll_clean c0.1 (storageAbort u).modified
-  have f1 := invalidateAll_fixed (storageAbort u) (storageAbort u).modified
+  have c1 := invalidateAll_clean c0.1 ((storageAbort u).modified.filter fun k => !(storageAbort u).creating.has k)
+  have f1 := invalidateAll_fixed (storageAbort u) ((storageAbort u).modified.filter fun k => !(storageAbort u).creating.has k)
   simp only [fixed, Prod.mk.injEq] at f1
   have c2 := invalidateCreating_clean c1.1 (invalidateModified (storageAbort u)).creating.keys
   have f2 := invalidateCreating_fixed (invalidateModified (storageAbort u))
@@ -343,7 +349,7 @@ theorem connTpcAbort_effect {u : State} (hS : Str [] u) (hsp : u.sp = none) (hb 
     have k1 : Keeps (fun k => u.added.get k = none ∧ u.creating.has k = false) u
         (invalidateModified (storageAbort u)) :=
       (Keeps.of_objs (s' := storageAbort u) rfl).trans
-        (invalidateAll_keeps _ (storageAbort u) (storageAbort u).modified)
+        (invalidateAll_keeps _ (storageAbort u) ((storageAbort u).modified.filter fun k => !(storageAbort u).creating.has k))
     have k2 := invalidateCreating_keeps (fun k => u.added.get k = none ∧ u.creating.has k = false)
       c1.1 (invalidateModified (storageAbort u)).creating.keys (by
         intro k hk hK
@@ -364,11 +370,12 @@ theorem connTpcAbort_effect {u : State} (hS : Str [] u) (hsp : u.sp = none) (hb 
     intro j k hj hk
     exact k3 j k (k2 j k (k1 j k hj hk) hk) hk
   · -- modGhost
-    intro k hk i hi
+    intro k hk hncr i hi
     have hsh : Shrink (invalidateModified (storageAbort u))
         (tpcCleanup (drainAdded (invalidateOwnCreating (invalidateModified (storageAbort u))))) :=
       ((c2'.step drainAdded_clean).step tpcCleanup_clean).2
-    have := invalidateAll_ghost c0.1 (storageAbort u).modified k hk i (hsh.cache k i hi)
+    have := invalidateAll_ghost c0.1 ((storageAbort u).modified.filter fun k => !(storageAbort u).creating.has k) k
+      (List.mem_filter.2 ⟨hk, by show (!u.creating.has k) = true; rw [hncr]; rfl⟩) i (hsh.cache k i hi)
     exact hsh.ghostKept i this
 
 end Proofs.Conn
